@@ -491,6 +491,8 @@ func (self *Analyzer) continueStatement(node pAst.ContinueStatement) ast.Analyze
 func (self *Analyzer) loopStatement(node pAst.LoopStatement) ast.AnalyzedLoopStatement {
 	// validate that the block returns `null`
 	oldLoopIsTerminated := self.currentModule.CurrentLoopIsTerminated
+	// only what happens inside this loop decides whether it terminates
+	self.currentModule.CurrentLoopIsTerminated = false
 	self.currentModule.LoopDepth++
 
 	body := self.block(node.Body, true)
@@ -528,6 +530,8 @@ func (self *Analyzer) whileStatement(node pAst.WhileStatement) ast.AnalyzedWhile
 
 	// validate that the block returns `null`
 	oldLoopIsTerminated := self.currentModule.CurrentLoopIsTerminated
+	// only what happens inside this loop decides whether it terminates
+	self.currentModule.CurrentLoopIsTerminated = false
 	self.currentModule.LoopDepth++
 
 	body := self.block(node.Body, true)
@@ -582,6 +586,8 @@ func (self *Analyzer) forStatement(node pAst.ForStatement) ast.AnalyzedForStatem
 	}
 
 	oldLoopIsTerminated := self.currentModule.CurrentLoopIsTerminated
+	// only what happens inside this loop decides whether it terminates
+	self.currentModule.CurrentLoopIsTerminated = false
 	self.currentModule.LoopDepth++
 	self.pushScope()
 
